@@ -63,6 +63,7 @@ def run(ctx):
     ctx.rule("R15.4", "X[X.size() - k] is dominated by a test implying X.size() >= k")
     ctx.rule("R15.6", "parse_file returns get_error_count() == 0; every error() increments the count; a failed parse exits non-zero and no output is opened before parsing completed")
     ctx.rule("R15.8", "every scanner loop that re-reads its look-ahead character inside the body can only go round while a test implying `c != EOF` holds (c != EOF, c == 'x', isX(c), c >= 0): at end of input it exits")
+    ctx.rule("R15.9", "a cursor p into a string X is never used as a position (X[p], X.substr(p), X.compare(p,..), handed back through a reference parameter) after an increment that was not preceded by a test implying p < X.size(), unless such a test lies in between")
     ctx.rule("R15.7", "macro expansion excludes the macro being expanded: nested_ignores.insert(manifest) before the recursive expansion; the pushed expansion suppresses its own macro")
 
     # ------------------------------------------------------------ R15.1
@@ -188,6 +189,7 @@ def run(ctx):
     ctx.info("R15.2: %d position arguments that are loop indices / find() results were enumerated, not judged" % n_not)
 
     scanner_loops(ctx)
+    string_cursors(ctx, thorough)
 
     # ------------------------------------------------------------ R15.3
     n_div = 0
@@ -431,4 +433,239 @@ def scanner_loops(ctx):
                 ctx.ob("R15.8", inst, bad is None, f.loc(lp),
                        "the loop %s" % ("cannot go round once `%s` is EOF" % nm if bad is None else "can go round again after `%s` with %s == EOF: no test implying %s != EOF lies on the cycle" % (show(bad), nm, nm)))
     ctx.floor("R15.8", "scanner loops that re-read their look-ahead", n, 28)
+
+
+
+
+# increments that need no test, with the reason
+CURSOR_EXEMPT = {
+    ("CPPManifest::extract_args", "q", 0): "`q++` sits under `if (q == p)` inside `while (p < expr.size())`: q == p < expr.size()",
+    ("CPPManifest::parse_parameters", "p", 0): "precondition args[p] == '(' (asserted; both callers test it before the call), so p < args.size() on entry",
+    ("CPPManifest::extract_args", "p", "dead"): "the `else if (expr[p] == '\"' ...)` arm is only reached when expr[p] == '(' held: dead code",
+}
+
+
+def string_cursors(ctx, thorough):
+    """R15.9: std::string positions beyond size() throw std::out_of_range (substr, compare, erase, at) or are undefined
+    (operator[] beyond size()); with exceptions disabled that is an abort.  The scanners walk strings with hand-kept
+    cursors; the invariant p <= X.size() is kept iff every increment happens under p < X.size()."""
+    db = ctx.db
+    n_inc = n_un = 0
+    for f in db.functions:
+        if "/cppparser/" not in f.file or "bison" in f.file.lower():
+            continue
+        if not thorough and not (f.file.endswith("cppManifest.cxx") or f.file.endswith("cppPreprocessor.cxx")):
+            continue
+        cur = {}
+        uses = {}
+        for n in f.walk():
+            if n.get("k") == "call" and (n.get("f") or "").startswith("std::basic_string::"):
+                nm = callee_short(n)
+                if nm == "operator[]" and len(n.get("a", [])) == 2:
+                    cont, ix = n["a"][0], n["a"][1]
+                elif nm in ("substr", "compare", "erase", "at") and "this" in n and n.get("a"):
+                    cont, ix = n["this"], n["a"][0]
+                else:
+                    continue
+                r = local_ref(strip_casts(peel(ix)))
+                if r is not None and r.get("dk") in ("local", "param"):
+                    cur.setdefault(r["d"], (r["n"], show(peel(cont))))
+                    if cur[r["d"]][1] == show(peel(cont)):
+                        uses.setdefault(r["d"], []).append(n)
+        if not cur:
+            continue
+        cfg = f.cfg
+        byref = {p["d"] for p in f.params if p["t"].rstrip().endswith("&") and "const" not in p["t"]}
+        for d, (nm, X) in cur.items():
+            incs, resets = [], []
+            for n in f.walk():
+                k = n.get("k")
+                if k == "un" and n.get("op") in ("++", "post++") and (local_ref(n.get("e")) or {}).get("d") == d:
+                    incs.append(n)
+                elif k == "bin" and n.get("op") == "+=" and (local_ref(n.get("x")) or {}).get("d") == d:
+                    incs.append(n)
+                elif k == "bin" and n.get("op") in ("=", "-=") and (local_ref(n.get("x")) or {}).get("d") == d:
+                    resets.append(n)
+                elif k == "un" and n.get("op") in ("--", "post--") and (local_ref(n.get("e")) or {}).get("d") == d:
+                    resets.append(n)
+                elif k == "call" and callee_short(n) not in ("operator[]", "substr", "compare", "erase", "at"):
+                    if any(a is not None and a.get("k") == "ref" and a.get("d") == d for a in n.get("a", [])):
+                        resets.append(n)       # handed to a callee by reference: the callee keeps the invariant (it is judged itself)
+            if not incs:
+                continue
+
+            def lt_size(atom, truth, d=d, X=X):
+                c = G.cmp_atom(atom)
+                if not c:
+                    return False
+                op, a, b = c
+                if not truth:
+                    op = G.NEG[op]
+                for u, v, o in ((a, b, op), (b, a, G.SWAP[op])):
+                    if (local_ref(u) or {}).get("d") == d:
+                        vv = strip_casts(peel(v))
+                        if vv is not None and vv.get("k") == "call" and callee_short(vv) in ("size", "length") and show(peel(vv.get("this"))) == X:
+                            return o in ("<", "!=")
+                    uu = strip_casts(peel(u))
+                    # X[p] == K with K != 0: std::string guarantees X[size()] == 0, so p < size()
+                    if uu is not None and uu.get("k") == "call" and callee_short(uu) == "operator[]" and len(uu.get("a", [])) == 2 \
+                            and (local_ref(uu["a"][1]) or {}).get("d") == d and show(peel(uu["a"][0])) == X:
+                        k0 = const_int(v)
+                        if k0 is not None and ((o == "==" and k0 != 0) or (o == "!=" and k0 == 0)):
+                            return True
+                if atom.get("k") == "call" and callee_short(atom) in CTYPE and atom.get("a"):
+                    a0 = strip_casts(peel(atom["a"][0]))
+                    if truth and a0 is not None and a0.get("k") == "call" and callee_short(a0) == "operator[]" and len(a0.get("a", [])) == 2 \
+                            and (local_ref(a0["a"][1]) or {}).get("d") == d and show(peel(a0["a"][0])) == X:
+                        return True
+                return False
+            cut = set(G.edges_where(f, lt_size))
+
+            def after(loc, pos_ok=True, stop_blocks=()):
+                """blocks reachable after location loc without crossing a `p < size` edge"""
+                seen = set()
+                for idx, s0 in enumerate(cfg.blocks[loc[0]].succs):
+                    if s0 is not None and (loc[0], idx) not in cut:
+                        seen |= cfg.reachable(s0, cut_edges=cut, cut_blocks=stop_blocks)
+                return seen
+            mods = incs + resets
+            mod_locs = [(m, cfg.locate(m)) for m in mods if cfg.locate(m) is not None]
+            ordn = 0
+            for inc in sorted(incs, key=lambda x: (f.line_of(x), x["i"])):
+                li = cfg.locate(inc)
+                if li is None:
+                    continue
+                n_inc += 1
+                # guarded: since the previous change of p (or entry) a test p < size lies on every path
+                guarded = True
+                for m, lm in [(None, (cfg.entry, -1))] + mod_locs:
+                    if lm[0] == li[0] and lm[1] < li[1] and m is not inc:
+                        # same block: is there a test between them?  blocks end at branches, so no
+                        guarded = False
+                        break
+                    if li[0] in after(lm):
+                        guarded = False
+                        break
+                if guarded:
+                    continue
+                n_un += 1
+                key = (f.name, nm, ordn)
+                ordn += 1
+                # which uses can see the overshoot?
+                reset_blocks = [lm[0] for m, lm in mod_locs if m in resets and lm[0] != li[0]]
+                seen = after(li, stop_blocks=reset_blocks)
+                hit = None
+                for u in uses.get(d, []):
+                    lu = cfg.locate(u)
+                    if lu is None:
+                        continue
+                    if (lu[0] == li[0] and lu[1] > li[1]) or lu[0] in seen:
+                        # operator[] exactly at size() is defined; one unguarded increment can reach size()+1
+                        hit = u
+                        break
+                escapes = d in byref and (cfg.exit in seen or any(b in seen for b in cfg.blocks if cfg.exit in cfg.blocks[b].succs))
+                if hit is None and escapes:
+                    # the overshoot reaches the caller: does a caller use the cursor before testing it again?
+                    pidx = [i for i, pp in enumerate(f.params) if pp["d"] == d][0]
+                    obs = _caller_observes(db, f, pidx)
+                    if obs is None:
+                        escapes = False
+                    else:
+                        hit_caller = obs
+                if hit is None and not escapes:
+                    ctx.ob("R15.9", "%s|%s|increment#%d|overshoot-unobserved" % key, True, f.loc(inc), "`%s` can pass %s.size(), but every later use is behind a new test" % (show(inc), X))
+                    continue
+                ex = CURSOR_EXEMPT.get(key) or next((v for k2, v in CURSOR_EXEMPT.items() if k2[0] == f.name and k2[1] == nm and k2[2] == "dead" and _dead_arm(f, inc)), None)
+                if ex:
+                    ctx.ob("R15.9", "%s|%s|increment#%d|exception" % key, True, f.loc(inc), "reasoned exception: " + ex)
+                    continue
+                ctx.ob("R15.9", "%s|%s|increment#%d" % key, False, f.loc(inc),
+                       "`%s` is not preceded by a test implying %s < %s.size(), and %s" % (show(inc), nm, X, ("`%s` (line %d) uses the cursor afterwards without one" % (show(hit)[:40], f.line_of(hit))) if hit is not None else "the cursor is handed back to the caller, where %s" % hit_caller))
+    ctx.floor("R15.9", "cursor increments examined", n_inc, 40)
+    ctx.info("R15.9: %d increments examined, %d of them not preceded by a bounds test" % (n_inc, n_un))
+
+
+def _caller_observes(db, f, pidx):
+    """Does some caller of f use the cursor it passed (by reference, parameter pidx) as a string position - or hand it
+    on - before testing it against the string's size again?  -> description or None."""
+    for g in db.functions:
+        if "/cppparser/" not in g.file:
+            continue
+        for c in g.walk():
+            if c.get("k") != "call" or c.get("f") != f.name or c.get("s") != f.sig or len(c.get("a", [])) <= pidx:
+                continue
+            a = c["a"][pidx]
+            r = a if (a is not None and a.get("k") == "ref") else None
+            if r is None or r.get("dk") not in ("local", "param"):
+                return "%s passes something other than a plain variable" % g.name
+            d = r["d"]
+            cfg = g.cfg
+            lc = cfg.locate(c)
+            if lc is None:
+                continue
+
+            def any_size_test(atom, truth, d=d):
+                cc = G.cmp_atom(atom)
+                if not cc:
+                    return False
+                op, x, y = cc
+                if not truth:
+                    op = G.NEG[op]
+                for u, v, o in ((x, y, op), (y, x, G.SWAP[op])):
+                    if (local_ref(u) or {}).get("d") == d:
+                        vv = strip_casts(peel(v))
+                        if vv is not None and vv.get("k") == "call" and callee_short(vv) in ("size", "length"):
+                            return o in ("<", "!=", "<=")
+                return False
+            cut = set(G.edges_where(g, any_size_test))
+            reset_at = {}
+            for x in g.walk():
+                if x.get("k") == "bin" and x.get("op") == "=" and (local_ref(x.get("x")) or {}).get("d") == d and cfg.locate(x) is not None and cfg.locate(x)[0] != lc[0]:
+                    lx = cfg.locate(x)
+                    reset_at[lx[0]] = min(lx[1], reset_at.get(lx[0], 1 << 30))
+            resets = list(reset_at)
+            seen = set()
+            for idx, s0 in enumerate(cfg.blocks[lc[0]].succs):
+                if s0 is not None and (lc[0], idx) not in cut:
+                    seen |= cfg.reachable(s0, cut_edges=cut, cut_blocks=resets)
+            # a block that assigns the cursor afresh is entered (its statements before the assignment still see the old value)
+            entered = {}
+            for rb, pos in reset_at.items():
+                for pb in cfg.blocks[rb].preds:
+                    if (pb in seen or pb == lc[0]) and any(s1 == rb and (pb, i1) not in cut for i1, s1 in enumerate(cfg.blocks[pb].succs)):
+                        entered[rb] = pos
+            for u in g.walk():
+                if u.get("k") != "call" or u is c:
+                    continue
+                nm = callee_short(u)
+                ix = None
+                if (u.get("f") or "").startswith("std::basic_string::"):
+                    if nm == "operator[]" and len(u.get("a", [])) == 2:
+                        ix = u["a"][1]
+                    elif nm in ("substr", "compare", "erase", "at") and u.get("a"):
+                        ix = u["a"][0]
+                if ix is None or (local_ref(strip_casts(peel(ix))) or {}).get("d") != d:
+                    continue
+                lu = cfg.locate(u)
+                if lu is not None and ((lu[0] == lc[0] and lu[1] > lc[1]) or lu[0] in seen or (lu[0] in entered and lu[1] < entered[lu[0]])):
+                    return "%s uses it in `%s` (line %d) without testing it again" % (g.name, show(u)[:40], g.line_of(u))
+            byref = {pp["d"] for pp in g.params if pp["t"].rstrip().endswith("&") and "const" not in pp["t"]}
+            if d in byref and cfg.exit in seen:
+                return "%s hands it on to its own caller" % g.name
+    return None
+
+
+def _dead_arm(f, node):
+    """node sits in an `else if (X[p] == A ...)` arm of an `if (... || X[p] != B)` whose else implies X[p] == B != A."""
+    anc = list(f.ancestors(node))
+    for i, a in enumerate(anc):
+        if a.get("k") == "if" and i + 1 < len(anc) and anc[i + 1].get("k") == "if" and anc[i + 1].get("else") is a:
+            outer = anc[i + 1]
+            oc = [G.cmp_atom(x) for x in walk(outer["c"]) if x.get("k") in ("bin", "call")]
+            ic = [G.cmp_atom(x) for x in walk(a["c"]) if x.get("k") in ("bin", "call")]
+            ne = {(show(c[1]), const_int(c[2])) for c in oc if c and c[0] == "!=" and const_int(c[2]) is not None}
+            eq = {(show(c[1]), const_int(c[2])) for c in ic if c and c[0] == "==" and const_int(c[2]) is not None}
+            if ne and eq and all(any(e[0] == n0[0] and e[1] != n0[1] for n0 in ne) for e in eq) and any(x is node for x in walk(a.get("then") or {})):
+                return True
+    return False
 
